@@ -38,16 +38,16 @@ def live_blocks(prog):
                     calls(b, live)
     calls(prog.files[prog.main], True)
 
-    def walk(body, scope, file, cls, live, in_loop, in_macro):
+    def walk(body, scope, file, cls, live, in_loop, in_macro, loop_count=0):
         if live:
-            out.append((cls, body, scope, file, {"in_loop": in_loop, "in_macro": in_macro}))
+            out.append((cls, body, scope, file, {"in_loop": in_loop, "in_macro": in_macro, "loop_count": loop_count if cls == "loop-body" else 0}))
         for s in body:
             if s.k == "if":
                 walk(s.then, scope, file, "conditional", live and s.taken, in_loop, in_macro)
                 if s.else_ is not None:
                     walk(s.else_, scope, file, "conditional", live and not s.taken, in_loop, in_macro)
             elif s.k == "loop":
-                walk(s.block, s.bscope, file, "loop-body", live and s.count > 0, True, in_macro)
+                walk(s.block, s.bscope, file, "loop-body", live and s.count > 0, True, in_macro, s.count)
             elif s.k == "macrodef":
                 walk(s.block, s.bscope, file, "macro-body", live and s.uid in invoked, in_loop, True)
             elif s.k in ("label", "braces") and s.block is not None:
@@ -135,6 +135,14 @@ def shard(idx, n, seed, tier, params):
         if text is None:
             continue
         pos_cls, body, scope, file, extra = block
+        if extra["loop_count"] >= 2 and not extra["in_macro"] and where == "last" and "\n" not in text and cls in SEMANTIC and rng.random() < 0.6:
+            # directly in a loop body: the fault exists in ONE iteration only (any of them, also not the last one)
+            k = rng.randrange(extra["loop_count"])
+            if cls == "immediate-range" and rng.random() < 0.5:
+                text = "lda #%d - index" % (256 + k) if k == 0 else "lda #255 + (index == %d)" % k
+            else:
+                text, where = ".if index == %d {\n%s\n}" % (k, text), "mid"
+            pos_cls = "loop-body/one-iteration"
         st = P.Stmt("raw", scope, text=text)
         if cls == "unclosed-block":
             body.append(st)
@@ -156,6 +164,10 @@ def shard(idx, n, seed, tier, params):
             ok_lines = {l1}
             first_col = len(files[file].split("\n")[l1 - 1]) - len(files[file].split("\n")[l1 - 1].lstrip()) + 1
             col_range = (first_col, c1 + 1)
+        elif where == "mid":
+            ok_lines = {l0 + 1}
+            ln = files[file].split("\n")[l0]
+            col_range = (len(ln) - len(ln.lstrip()) + 1, len(ln) + 1)
         elif where == "any":
             ok_lines = set(range(l0, l1 + 1))
             col_range = (1, 200)
@@ -178,7 +190,7 @@ def shard(idx, n, seed, tier, params):
              "stdout": r["out"][-1500:], "stderr": r["err"][-300:]}
         acc.count("class.%s" % cls)
         acc.cover("class_x_position", "%s @ %s" % (cls, pos_cls))
-        if r["timeout"] or r["rc"] in (97, 101) or (r["rc"] or 0) < 0:
+        if r["timeout"] or r["rc"] in (96, 97, 101) or (r["rc"] or 0) < 0:
             acc.inconc("abnormal exit %s (C06): %s" % (r["rc"], r["err"][-120:]))
             continue
         if r["rc"] == 0:
